@@ -2,6 +2,7 @@ package checks
 
 import (
 	"fmt"
+	"github.com/bufbuild/buf/private/pkg/thread"
 	"strings"
 
 	"github.com/bufbuild/buf/private/bufpkg/bufimage"
@@ -50,7 +51,17 @@ var c04AllCfgs = func() []c03Cfg {
 }()
 
 func c04Schema(c *core.C) *gen.Schema {
-	s := gen.Generate(c.Rand, c03GenConfig(c.Rand))
+	cfg := c03GenConfig(c.Rand)
+	if c.Idx%5 == 4 {
+		// a wide schema under a lowered parallelism: the chunked, parallel file conversion of bufprotosource
+		// (see c03Wide) must give both sides of a comparison the same files
+		cfg.Modules, cfg.MinFiles, cfg.MaxFiles, cfg.CustomOptions = 2, 10, 12, false
+		thread.SetParallelism(2 + (c.Idx/5)%2)
+		c.Count("cases_under_lowered_parallelism", 1)
+	} else {
+		thread.SetParallelism(c04DefaultParallelism)
+	}
+	s := gen.Generate(c.Rand, cfg)
 	c03Enrich(c.Rand, s)
 	// valid but unusual: proto2 files without a syntax statement (present on both sides of every comparison)
 	for _, f := range s.AllFiles() {
@@ -60,6 +71,9 @@ func c04Schema(c *core.C) *gen.Schema {
 	}
 	return s
 }
+
+// c04DefaultParallelism is the parallelism of the process at start (cases of one worker run one after another).
+var c04DefaultParallelism = thread.Parallelism()
 
 type c04Version struct {
 	S     *gen.Schema
@@ -415,7 +429,7 @@ func init() {
 		},
 		Cases: func(tier string) int { return c04Chains(tier) + c04HierCases(tier) },
 		Run:   c04Run,
-		Required: []string{"hierarchy_single_reservation_ops", "hierarchy_matrix_pairs", "chain_pairs", "self_pairs", "relayout_pairs", "hierarchy_pairs", "hier:----", "hier:F---", "hier:FP--", "hier:FPJ-", "hier:FPJW",
+		Required: []string{"cases_under_lowered_parallelism", "hierarchy_single_reservation_ops", "hierarchy_matrix_pairs", "chain_pairs", "self_pairs", "relayout_pairs", "hierarchy_pairs", "hier:----", "hier:F---", "hier:FP--", "hier:FPJ-", "hier:FPJW",
 			"implication_nonvacuous:FILE=>PACKAGE", "implication_nonvacuous:PACKAGE=>WIRE_JSON", "implication_nonvacuous:WIRE_JSON=>WIRE", "additive_operators"},
 	})
 }
